@@ -263,12 +263,25 @@ func ingestNontrivial(in *ingestInput, res Res) bool {
 }
 
 func runC01(ctx *Ctx) {
+	if ctx.Idx == 0 {
+		// one size-boundary case per run: more blocks than any pre-allocation cap
+		runC01Big(ctx)
+		return
+	}
 	t, rs, w, comma, tags := genIngestSpec(ctx.R, ctx.Thorough())
 	in, res := doIngest(t, rs, w, comma, false)
 	ctx.Emit("ingest", in, res, ingestNontrivial(in, res), tags...)
 }
 
 func corpusC01(ctx *Ctx, op string, raw json.RawMessage) {
+	if op == "ingest-big" {
+		var in c01BigInput
+		if err := json.Unmarshal(raw, &in); err != nil {
+			panic(err)
+		}
+		ctx.Emit("ingest-big", &in, c01BigRun(&in), true, "corpus")
+		return
+	}
 	var in ingestInput
 	if err := json.Unmarshal(raw, &in); err != nil {
 		panic(err)
